@@ -165,13 +165,14 @@ def is_exhaustive_regime(case):
 # ---------------------------------------------------------------------- strategies
 
 
-def _search_cases(tier, regime="any", batch_choices=(None, 1, 2, 3), eos_kinds=("none", "pos", "pos", "pos", "neg")):
+def _search_cases(tier, regime="any", batch_choices=(None, 1, 2, 3), eos_kinds=("pos", "none", "pos", "pos", "neg"),
+                  contrast=False):
     maxT = 4 if tier == "quick" else 5
-    Ts = [0, 1, 2, 2, 3, 3, 3] + [4] * 3 + ([5] * 3 if maxT >= 5 else [])
+    Ts = [3, 0, 1, 2, 2, 3, 3] + [4] * 3 + ([5] * 3 if maxT >= 5 else [])
 
     @st.composite
     def _s(draw):
-        spec = draw(declm.lm_specs(1, 4, max_cond=3))
+        spec = draw(declm.lm_specs(1, 4, max_cond=3, min_cond=2 if contrast else 1))
         V, C = spec["V"], len(spec["cond"])
         kind = draw(st.sampled_from(list(eos_kinds)))
         if kind == "none":
@@ -187,16 +188,21 @@ def _search_cases(tier, regime="any", batch_choices=(None, 1, 2, 3), eos_kinds=(
             if eos is not None:
                 finish_all = True
         max_iters = T
-        if regime == "any" and eos is not None and draw(st.integers(0, 7)) == 0:
+        if regime == "any" and eos is not None and draw(st.integers(0, 7)) == 7:
             max_iters = None
         nc = n_complete(V, _norm_eos(eos, V), T)
         if regime == "exhaustive":
             width = draw(st.sampled_from([nc, nc, nc + 1, nc + 3, 2 * nc + 1]))
         else:
-            width = draw(st.one_of(st.integers(1, 4), st.integers(1, max(1, nc - 1)), st.integers(1, nc + 3),
+            width = draw(st.one_of(st.sampled_from([2, 1, 3, 4]), st.integers(1, max(1, nc - 1)), st.integers(1, nc + 3),
                                    st.sampled_from([nc, nc + 1, nc + 5])))
-        batch = draw(st.sampled_from(list(batch_choices)))
+        batch = draw(st.sampled_from(sorted(batch_choices, key=lambda b: (b != 2, b is not None, b))))
         conds = draw(st.lists(st.integers(0, C - 1), min_size=batch or 1, max_size=batch or 1))
+        if contrast and eos is not None and V >= 2 and draw(st.sampled_from([True, True, False])):
+            # one element that wants to stop at once next to one that does not: elements finish at different steps
+            e = _norm_eos(eos, V)
+            spec["cond"][0][e], spec["cond"][1][e] = 24, -24
+            conds[:2] = draw(st.sampled_from([[0, 1], [1, 0]]))
         case = {"lm": spec, "width": width, "eos": eos, "finish_all": finish_all, "max_iters": max_iters,
                 "batch": batch, "conds": conds, "pad_value": draw(st.sampled_from([-1, 0, 3, -100]))}
         if batch is None and conds == [0]:
@@ -290,7 +296,8 @@ def _match_lists(a, b, what, tol=1e-4):
 
 
 def _independence_cases(tier):
-    base = _search_cases(tier, "any", batch_choices=(2, 3), eos_kinds=("none", "pos", "pos", "pos", "pos", "neg"))
+    base = _search_cases(tier, "any", batch_choices=(2, 3), eos_kinds=("pos", "none", "pos", "pos", "pos", "neg"),
+                        contrast=True)
 
     @st.composite
     def _s(draw):
